@@ -213,7 +213,7 @@ func (stepsEngine) Run(t *testing.T, batch string, tape *rt.Tape, runIdx uint64,
 	var plugin *schema.CallableSchema
 	results := make([][]OpResult, len(plan.Workers))
 	var simRef *rt.Sim
-	out := rt.Run(t, rt.Config{Tape: tape, Strategy: strat, MaxSteps: 300000, Trace: trace}, func(s *rt.Sim) {
+	out := rt.Run(t, rt.Config{Tape: tape, Strategy: strat, MaxSteps: 300000, Trace: trace, LocalSeams: rt.RaceBuild}, func(s *rt.Sim) {
 		simRef = s
 		plugin = BuildPlugin(plan.Plugin, recorder)
 		var wg sync.WaitGroup
@@ -261,14 +261,14 @@ func (stepsEngine) Run(t *testing.T, batch string, tape *rt.Tape, runIdx uint64,
 	sample["strategy"] = stratName
 	sample["steps"] = out.Steps
 	rec.Sample = sample
-	if out.BubblePanic != "" && !out.Deadlock {
-		rec.Outcome = "infra"
-		rec.Reason = "bubble panic: " + out.BubblePanic
-		return rec
-	}
 	if out.Budget {
 		rec.Outcome = "infra"
-		rec.Reason = "step budget exceeded"
+		rec.Reason = fmt.Sprintf("step budget exceeded (%d steps)", out.Steps)
+		return rec
+	}
+	if out.BubblePanic != "" && !out.Deadlock {
+		rec.Outcome = "infra"
+		rec.Reason = "bubble panic: " + trunc(out.BubblePanic, 3000)
 		return rec
 	}
 	add := func(class, sig, detail string) {
